@@ -174,11 +174,20 @@ Proof.
 Qed.
 
 (* a concrete deserialized map meeting every hypothesis of map_find_in_bounds:
-   region 0 = the sorted_map slot, region 1 = one index entry, region 2 = base buffer "k\0v\0" *)
+   region 0 = the sorted_map slot (index ptr/len, base ptr/len), region 1 = one index entry
+   (key slice (0,2), value slice (2,2)), region 2 = base buffer "k\0v\0" *)
 Definition ex_mem : mem :=
-  [ le_enc 8 (region_base 1) ++ le_enc 8 32 ++ le_enc 8 (region_base 2) ++ le_enc 8 4;
-    le_enc 8 0 ++ le_enc 8 2 ++ le_enc 8 2 ++ le_enc 8 2;
+  [ [0; 0; 0; 0; 1; 48; 0; 0; 32; 0; 0; 0; 0; 0; 0; 0; 0; 0; 0; 0; 2; 48; 0; 0; 4; 0; 0; 0; 0; 0; 0; 0];
+    [0; 0; 0; 0; 0; 0; 0; 0; 2; 0; 0; 0; 0; 0; 0; 0; 2; 0; 0; 0; 0; 0; 0; 0; 2; 0; 0; 0; 0; 0; 0; 0];
     [107; 0; 118; 0] ].
+Fixpoint bytes_okb (bs : list byte) : bool :=
+  match bs with [] => true | b :: r => (0 <=? b) && (b <? 256) && bytes_okb r end.
+Lemma bytes_okb_ok bs : bytes_okb bs = true -> bytes_ok bs.
+Proof.
+  induction bs as [|b r IH]; intros H; [constructor|]. cbn [bytes_okb] in H.
+  apply andb_true_iff in H. destruct H as [H1 H2]. apply andb_true_iff in H1. destruct H1 as [H0 H1].
+  apply Z.leb_le in H0. apply Z.ltb_lt in H1. constructor; [lia|exact (IH H2)].
+Qed.
 Example map_find_hyps_inhabited :
   mem_bytes ex_mem /\ mem_wf ex_mem /\ validb (lens ex_mem) (region_base 0) 32 = true /\
   load64 ex_mem (region_base 0) = Ok (region_base 1) /\ load64 ex_mem (region_base 0 + 8) = Ok 32 /\
@@ -188,8 +197,8 @@ Example map_find_hyps_inhabited :
   map_find cfg_final ex_mem (region_base 0) [122; 0] = Ok 1.
 Proof.
   split; [|split].
-  - unfold mem_bytes, bytes_ok, ex_mem. repeat constructor; vm_compute; intuition discriminate.
-  - unfold mem_wf. vm_compute. repeat constructor; discriminate.
+  - unfold mem_bytes, ex_mem. repeat (apply Forall_cons; [apply bytes_okb_ok; vm_compute; reflexivity|]). apply Forall_nil.
+  - unfold mem_wf. change (lens ex_mem) with [32; 32; 4]. repeat (apply Forall_cons; [unfold STRIDE; lia|]). apply Forall_nil.
   - repeat split; vm_compute; reflexivity.
 Qed.
 
@@ -238,16 +247,48 @@ Section Checked.
   Qed.
 End Checked.
 
-(* an altered checked message (one flipped bit under the checksum) is rejected by the executable
-   model with the real CRC32C step; the unaltered one is accepted *)
+(* FINDING F23.  "A checked message whose bytes were altered is rejected" is FALSE for the
+   code as it is: the accumulator of the hash is m_checksum itself, which lies inside the body
+   that is hashed last; with the real CRC32C step the word equal to the running value resets
+   the register, so the result does not depend on the variable-length fields.  Witness: two
+   streams that differ in a byte of the string field carry the same stored checksum and are
+   both accepted by the (faithful) model; replayed on the implementation (corpus). *)
 Definition ex_checked_shape : shape := mkShape 24 true (FCons 8 FStr FNil).
 Definition ex_checked_good : list byte :=
-  [104; 105; 0] ++ [232; 252; 216; 109] ++ [7; 0; 0; 0] ++ le_enc 8 4660 ++ le_enc 8 3.
-Example checked_example_accept :
-  exists t st, deserialize crc32c_step cfg_final ex_checked_shape [ex_checked_good]
-                 (mkIov 4 [(region_base 0, 27)] 0 32) = Ok (t, st) /\ t = region_base 0 + 3.
-Proof. eexists. eexists. split; [vm_compute; reflexivity|reflexivity]. Qed.
-Example checked_example_reject :
-  exists st, deserialize crc32c_step cfg_final ex_checked_shape [ [104; 104; 0] ++ skipn 3 ex_checked_good ]
-                 (mkIov 4 [(region_base 0, 27)] 0 32) = Ok (0, st).
-Proof. eexists. vm_compute. reflexivity. Qed.
+  [104; 105; 0; 68; 136; 122; 8; 7; 0; 0; 0; 52; 18; 0; 0; 0; 0; 0; 0; 3; 0; 0; 0; 0; 0; 0; 0].
+Definition ex_checked_bad : list byte :=
+  [104; 104; 0; 68; 136; 122; 8; 7; 0; 0; 0; 52; 18; 0; 0; 0; 0; 0; 0; 3; 0; 0; 0; 0; 0; 0; 0].
+Definition accepted (bs : list byte) : bool :=
+  match deserialize crc32c_step cfg_final ex_checked_shape [bs] (mkIov 4 [(region_base 0, len bs)] 0 32) with
+  | Ok (t, _) => negb (t =? 0)
+  | Err _ => false
+  end.
+(* the full-strength statement, kept as a Prop: every alteration of an accepted checked
+   stream (same length, different bytes) is rejected *)
+Definition checked_rejects_alteration : Prop :=
+  forall bs bs', accepted bs = true -> len bs' = len bs -> bs' <> bs -> accepted bs' = false.
+Lemma checked_rejects_alteration_refuted : ~ checked_rejects_alteration.
+Proof.
+  intros H. specialize (H ex_checked_good ex_checked_bad).
+  assert (A : accepted ex_checked_good = true) by (vm_compute; reflexivity).
+  assert (B : accepted ex_checked_bad = true) by (vm_compute; reflexivity).
+  rewrite H in B; [discriminate|exact A|reflexivity|discriminate].
+Qed.
+
+(* ------------------------------------------------------------------------------
+   Full-strength statements not proved yet (kept as Props; see notes/C12.md)
+   ------------------------------------------------------------------------------ *)
+Definition els_valid (m : mem) (el : list (Z * Z)) : Prop :=
+  Forall (fun e => 0 <= snd e /\ validb (lens m) (fst e) (snd e) = true) el.
+(* deser_in_bounds: for every byte memory, every iovec list whose elements denote readable
+   memory, every shape: deserialization never accesses memory out of range (no Err), and
+   walking every field of an accepted message (reading every byte) does not either.
+   (needs additionally: shape well-formedness = every slot inside its enclosing struct) *)
+Definition deser_in_bounds (shape_wf : shape -> Prop) : Prop :=
+  forall hstep sh m v, shape_wf sh -> mem_bytes m -> mem_wf m -> els_valid m (i_el v) ->
+    sum_el (i_el v) <= INT_MAX -> len m + i_cap v <= 65536 -> 0 <= i_nb v ->
+    exists t st, deserialize hstep cfg_final sh m v = Ok (t, st) /\
+      (t <> 0 -> exists its, w_fields cfg_final (sh_fields sh) (d_mem st) t = Ok its).
+(* ser_roundtrip: serialize a value laid out in sender memory, copy the emitted iovecs into
+   ANY fragmentation of the same flat byte string, deserialize: the walk of the result equals
+   the walk of the original (contents of every field), up to pointer values. *)
